@@ -392,7 +392,17 @@ def r04_8(ctx, prog, crate):
     r15_3(Renamed(ctx, "R04.8"), prog, crate)
 
 
+def r04_9(ctx, prog, crate):
+    """(= R15.2) The skip_ext_time / min_time / max_time the loop obeys are the resolved ones: on every path of
+    run_bench_entry the options handed to BenchContext::new are the runner's options merged over the entry's with
+    overwrite() (or the runner's alone) - never the entry's own options on a 'nothing set at run time' shortcut."""
+    from .C15 import r15_2
+    from .common import Renamed
+    r15_2(Renamed(ctx, "R04.9"), prog, crate)
+
+
 def run(ctx, prog, crate):
+    r04_9(ctx, prog, crate)
     r04_8(ctx, prog, crate)
     r04_7(ctx, prog, crate)
     r04_5(ctx, prog, crate)
